@@ -70,7 +70,7 @@ def rule_process(ctx):
         count = ch.choose("data files", [0, 1, 2, 3])
         planned = [ch.choose(("file", index), FILE_OUTCOMES) for index in range(count)]
         until = ch.choose("until", [None, 5])
-        cid = Obj(model.cls("cutplace.interface.Cid"), {}, label="cid")
+        cid = Obj(model.cls("cutplace.interface.Cid"), {"_check_names": [], "_check_name_to_check_map": {}}, label="cid")
         constructed = []
 
         @stub
@@ -98,7 +98,8 @@ def rule_process(ctx):
                 if behaviour == "rejected-at-end":
                     interp_.raise_("cutplace.errors.CheckError", Opaque("str", True))
 
-            return Obj(model.cls("cutplace.validio.Reader"), {"validate_rows": validate_rows, "close": close, "accepted_rows_count": 1},
+            return Obj(model.cls("cutplace.validio.Reader"), {"validate_rows": validate_rows, "close": close, "accepted_rows_count": 1,
+                                                              "_cid": cid, "_is_closed": False},
                        label="reader%d" % index)
 
         @stub
